@@ -91,6 +91,13 @@ theorem format_idem_program (m : PModel) (h : WFp m) :
     ∃ m', parseProgram (progToks m) = .ok m' ∧ progToks m' = progToks m :=
   ⟨m, parseProgram_fmt m h, rfl⟩
 
+/-- **A comparison chain is not a constraint**: `a <= b <= c` (any two comparisons) makes the program invalid
+instead of being read as one of the two possible conjunctions. -/
+theorem comparison_chain_is_rejected {a b c : PExp} (ha : WF a) (hb : WF b) (hc : WF c) (c1 c2 : Cmp) :
+    parseProgram (.word "solve" :: .nl :: .st :: .nl ::
+      (fmtToks a ++ cmpTok c1 :: (fmtToks b ++ cmpTok c2 :: (fmtToks c ++ [.nl])))) = .error .reject :=
+  comparison_chain_rejected ha hb hc c1 c2
+
 /-- non-vacuity: `max x - (y - 2) s.t. c1: x <= 3  /  x and y  where let k = 2 define x, y as Real(0, k) / z as Boolean` -/
 example : WFp (PModel.mk .max (.bin .sub (.var "x") (.bin .sub (.var "y") (.int 2)))
     [PConstraint.mk (some (.plain "c1")) (.var "x") .le (.int 3) false [] [],
